@@ -200,6 +200,10 @@ def run(ctx: Ctx):
         pname, over = MC.profiles(ctx.tier)[i % len(MC.profiles(ctx.tier))]
         one(ctx, cs, pname, over, core=True)
         i += 1
+    # one score of more than 1000 lines (ranges that start beyond line 1000 under the default recursion limit)
+    for cs in cases(ctx, 'c07-long', 1 if ctx.tier == 'quick' else 3):
+        ctx.mon('long_documents')
+        one(ctx, cs, 'kern_core', {'measures': (12, 14), 'rows': (85, 95), 'max_spines': 1, 'p_split': 0.0, 'p_gcomment': 0.0, 'p_fcomment': 0.0, 'p_tandem': 0.0, 'p_null_run': 0.0, 'p_blank': 0.0, 'p_bbox': 0.0, 'empty_measures': 0.0}, core=True)
     for cs in cases(ctx, 'c07x', n_expl):
         pname, over = MC.EXPLORED[i % len(MC.EXPLORED)]
         one(ctx, cs, pname, over, core=False)
